@@ -235,6 +235,38 @@ func c28Run(c c28Case) *eng.Fail {
 				if ir.ShowEffect(ap) != expAp {
 					return &eng.Fail{Sig: "EffectApply result", What: fmt.Sprintf("EffectApply(%s) = %s, expected %s", ir.ShowEffect(ef), ir.ShowEffect(ap), expAp), Case: c}
 				}
+				// functions that change only some operands: nothing, only the stored value, only the address
+				es, os := ir.Show(e), ir.Show(o)
+				for fi, f := range []func(x expr.Expr) expr.Expr{
+					func(x expr.Expr) expr.Expr { return x },
+					func(x expr.Expr) expr.Expr {
+						if ir.Show(x) == es {
+							return wrap(x)
+						}
+						return x
+					},
+					func(x expr.Expr) expr.Expr {
+						if ir.Show(x) == os {
+							return wrap(x)
+						}
+						return x
+					},
+				} {
+					var ap2 expr.Effect
+					if p, stack := eng.Catch(func() { ap2 = exprtransform.EffectApply(ef, f) }); p != nil {
+						return &eng.Fail{Sig: "effect panic " + eng.PanicSite(stack), What: fmt.Sprintf("EffectApply(%s) panics: %v", ir.ShowEffect(ef), p), Case: c}
+					}
+					var exp2 string
+					switch x := ef.(type) {
+					case expr.RegStore:
+						exp2 = ir.ShowEffect(expr.NewRegStore(f(x.Value()), x.Key(), x.Width()))
+					case expr.MemStore:
+						exp2 = ir.ShowEffect(expr.NewMemStore(f(x.Value()), x.Key(), f(x.Addr()), x.Width()))
+					}
+					if ir.ShowEffect(ap2) != exp2 {
+						return &eng.Fail{Sig: "EffectApply result (partial function)", What: fmt.Sprintf("EffectApply(%s, f%d) = %s, expected %s (f0 = identity, f1 changes only %s, f2 changes only %s)", ir.ShowEffect(ef), fi, ir.ShowEffect(ap2), exp2, es, os), Case: c}
+					}
+				}
 				// EffectsApply on the whole list, twice: results exact, the caller's list untouched
 				before := []string{ir.ShowEffect(effs[0]), ir.ShowEffect(effs[1])}
 				for round := 0; round < 2; round++ {
@@ -262,7 +294,7 @@ func c28Run(c c28Case) *eng.Fail {
 
 func init() {
 	checks["C28"] = eng.Check{
-		Rule: "On a space of ~6k trees (all 1-internal-node trees over 6 leaves x widths 1,2 x two memory keys; all 2-internal-node trees over 2 leaves; deep self-nested trees): Equal on ALL ordered pairs vs. equality of an independent canonical rendering; FindAll for each of the 5 node kinds vs. own pre-order walk; ReplaceAll for 5 kinds x 5 replacement functions (none/all/some/wrap/ignored) vs. own bottom-up model incl. the multiset of nodes f was applied to; Exprs/ExprsMany/EffectApply/EffectsApply (applied twice, input list must stay untouched) on RegStore/MemStore of every tree x 3 widths. Non-trivial = Equal pair with equal kinds and widths; find/replace with at least one match.",
+		Rule: "On a space of ~6k trees (all 1-internal-node trees over 6 leaves x widths 1,2 x two memory keys; all 2-internal-node trees over 2 leaves; deep self-nested trees): Equal on ALL ordered pairs vs. equality of an independent canonical rendering; FindAll for each of the 5 node kinds vs. own pre-order walk; ReplaceAll for 5 kinds x 5 replacement functions (none/all/some/wrap/ignored) vs. own bottom-up model incl. the multiset of nodes f was applied to; Exprs/ExprsMany/EffectApply/EffectsApply (applied twice, input list must stay untouched) on RegStore/MemStore of every tree x 3 widths, with functions that change every operand, none, only the value and only the address. Non-trivial = Equal pair with equal kinds and widths; find/replace with at least one match.",
 		Run: func(r *eng.Run) {
 			ts := c28Space.get()
 			n := len(ts)
